@@ -1,7 +1,8 @@
 """C05 — block store holds one hash-linked canonical chain across reorgs and crashes.
 
 Proof: lean/Rangers/Props/C05*.lean about lean/Rangers/Model/ChainStore.lean.
-Tie: T-corr — harness/cmd/c05 boots the real chain (core.initBlockChain, stub consensus),
+Tie: T-gen — gen/cmd/c05facts regenerates Generated/C05Facts.lean (statement orders, cache-eviction keys, caller and
+writer inventories) and Props/C05Facts.lean re-checks them against the model; T-corr — harness/cmd/c05 boots the real chain (core.initBlockChain, stub consensus),
 delivers generated block trees through BlockChain.AddBlockOnChain, injects process deaths
 before chosen physical LevelDB writes, restarts, and prints results, write sequences and
 canonical views; the compiled model (drv_c05) must answer every line identically.
@@ -12,7 +13,7 @@ import os
 
 import vlib
 
-PROPS = ['Rangers.Props.C05']
+PROPS = ['Rangers.Props.C05', 'Rangers.Props.C05Facts']
 DRIVERS = ['C05']
 META = dict(
     level='proof',
@@ -38,13 +39,24 @@ META = dict(
 )
 
 
+def gen(ctx):
+    """T-gen: re-extract the statement order of insertBlock / remove / ensureChainConsistency (cache evictions
+    with their keys), the caller inventory of the block-adding / removing functions and the index-store writers
+    from src/core/*.go of the working tree into Generated/C05Facts.lean."""
+    rc, so, se = vlib.go_run_gen(ctx, 'c05facts', ['repo=' + ctx.repo])
+    if rc != 0 or 'namespace Rangers.Generated.C05Facts' not in so:
+        return dict(ok=False, error='c05facts failed: ' + (se or so)[-800:])
+    changed = vlib.write_if_changed(os.path.join(vlib.LEAN, 'Rangers', 'Generated', 'C05Facts.lean'), so)
+    return dict(ok=True, changed=changed, facts=so.count('\n  '))
+
+
 def _args(ctx, mode):
     if mode == 'corr':
         if ctx.thorough():
-            return ['n=400', 'exhaustive=12', 'maxk=26', 'workers=14']
+            return ['n=1200', 'exhaustive=30', 'maxk=26', 'workers=14']
         return ['n=160', 'exhaustive=1', 'maxk=22', 'workers=14']
     if ctx.thorough():
-        return ['mode=search', 'n=600', 'workers=14']
+        return ['mode=search', 'n=2000', 'workers=14']
     return ['mode=search', 'n=220', 'workers=14']
 
 
